@@ -40,13 +40,29 @@ func c11Build(typ int) *c11World {
 	if err != nil || err2 != nil || s.Add(m) != nil {
 		vAssert(false, "C11.setup")
 	}
-	// a re-declaration of the same metric, as a reload registers it
-	m2 := metrics.NewMetric("foo", "prog", kind, mt, "key")
-	m2.Source = "prog:1"
-	if kind == metrics.Histogram {
-		m2.Buckets = []datum.Range{{0, 1}, {1, 2}, {2, math.Inf(1)}}
+	redecl := func() *metrics.Metric {
+		// a re-declaration of the same metric, as a reload registers it
+		x := metrics.NewMetric("foo", "prog", kind, mt, "key")
+		x.Source = "prog:1"
+		if kind == metrics.Histogram {
+			x.Buckets = []datum.Range{{0, 1}, {1, 2}, {2, math.Inf(1)}}
+		}
+		return x
 	}
-	return &c11World{s: s, m: m, d: d, e: &Exporter{store: s, hostname: "host", pushInterval: 60 * time.Second}, m2: m2}
+	// the store may already have seen a reload of the program (its metric
+	// lists then have spare capacity and are updated in place)
+	if nondetRange("reloaded-before", 0, 1) == 1 {
+		m1 := redecl()
+		if s.Add(m1) != nil {
+			vAssert(false, "C11.setup")
+		}
+		m = m1
+		d, err = m.GetDatum("a")
+		if err != nil {
+			vAssert(false, "C11.setup")
+		}
+	}
+	return &c11World{s: s, m: m, d: d, e: &Exporter{store: s, hostname: "host", pushInterval: 60 * time.Second}, m2: redecl()}
 }
 
 type nullWriter struct{ hdr http.Header }
